@@ -1,5 +1,6 @@
 SPECIFICATION Spec
 CONSTANTS
+  Ablate = {}
   Ids = {1, 2, 3}
   MaxLen = 2
   MaxDepth = 6
